@@ -211,8 +211,13 @@ func (t *tr) expr(e ast.Expr) string {
 	case *ast.ParenExpr:
 		return t.expr(x.X)
 	case *ast.Ident:
-		if v, ok := t.env[x.Name]; ok {
+		obj := t.objOf(x)
+		if v, ok := t.env[obj]; ok && obj != nil {
 			return v
+		}
+		if obj != nil && obj.Parent() != t.pkg.Scope() && obj.Parent() != types.Universe {
+			// a local that has no definition here (named result, closure variable, ...)
+			return t.fail(e, "local %s without a translated definition", x.Name)
 		}
 		return leanName(x.Name)
 	case *ast.SelectorExpr:
@@ -406,7 +411,9 @@ func (t *tr) block(stmts []ast.Stmt, indent string) string {
 					switch lv := x.Lhs[0].(type) {
 					case *ast.Ident:
 						val := t.expr(x.Rhs[0])
-						t.define(lv.Name, t.leanType(rhsTy), val)
+						if lv.Name != "_" {
+							t.define(t.objOf(lv), lv.Name, lv.Pos(), t.leanType(rhsTy), val)
+						}
 						return t.block(rest, indent)
 					case *ast.SelectorExpr:
 						// x.f = e  →  new version of x with field f replaced
@@ -415,7 +422,7 @@ func (t *tr) block(stmts []ast.Stmt, indent string) string {
 							return t.fail(s, "field assignment on a non-variable")
 						}
 						val := fmt.Sprintf("{ %s with %s := %s }", t.expr(lv.X), lv.Sel.Name, t.expr(x.Rhs[0]))
-						t.define(base.Name, t.leanType(t.info.TypeOf(lv.X)), val)
+						t.define(t.objOf(base), base.Name, lv.Pos(), t.leanType(t.info.TypeOf(lv.X)), val)
 						return t.block(rest, indent)
 					default:
 						return t.fail(s, "assignment target %T", lv)
@@ -427,9 +434,7 @@ func (t *tr) block(stmts []ast.Stmt, indent string) string {
 					return t.fail(s, "tuple assignment")
 				}
 				val := t.expr(x.Rhs[0])
-				tn := "tup"
-				t.define(tn, t.leanType(rhsTy), val)
-				tupExpr := t.env[tn]
+				tupExpr := t.define(nil, "", x.Rhs[0].Pos(), t.leanType(rhsTy), val)
 				for i, l := range x.Lhs {
 					id, ok := l.(*ast.Ident)
 					if !ok {
@@ -446,7 +451,7 @@ func (t *tr) block(stmts []ast.Stmt, indent string) string {
 					if i < tup.Len()-1 {
 						proj = proj + ".1"
 					}
-					t.define(id.Name, t.leanType(tup.At(i).Type()), proj)
+					t.define(t.objOf(id), id.Name, id.Pos(), t.leanType(tup.At(i).Type()), proj)
 				}
 				return t.block(rest, indent)
 			}
@@ -460,7 +465,10 @@ func (t *tr) block(stmts []ast.Stmt, indent string) string {
 					if !ok {
 						return t.fail(s, "assignment target")
 					}
-					t.define(id.Name, t.leanType(t.info.TypeOf(x.Rhs[i])), vals[i])
+					if id.Name == "_" {
+						continue
+					}
+					t.define(t.objOf(id), id.Name, id.Pos(), t.leanType(t.info.TypeOf(x.Rhs[i])), vals[i])
 				}
 				return t.block(rest, indent)
 			}
@@ -487,7 +495,7 @@ func (t *tr) block(stmts []ast.Stmt, indent string) string {
 		val := t.binary(be)
 		switch lv := x.Lhs[0].(type) {
 		case *ast.Ident:
-			t.define(lv.Name, t.leanType(t.info.TypeOf(lv)), val)
+			t.define(t.objOf(lv), lv.Name, lv.Pos(), t.leanType(t.info.TypeOf(lv)), val)
 			return t.block(rest, indent)
 		case *ast.SelectorExpr:
 			base, ok := lv.X.(*ast.Ident)
@@ -495,7 +503,7 @@ func (t *tr) block(stmts []ast.Stmt, indent string) string {
 				return t.fail(s, "field op-assign on a non-variable")
 			}
 			nv := fmt.Sprintf("{ %s with %s := %s }", t.expr(lv.X), lv.Sel.Name, val)
-			t.define(base.Name, t.leanType(t.info.TypeOf(lv.X)), nv)
+			t.define(t.objOf(base), base.Name, lv.Pos(), t.leanType(t.info.TypeOf(lv.X)), nv)
 			return t.block(rest, indent)
 		}
 		return t.fail(s, "op-assign target")
@@ -522,7 +530,15 @@ func (t *tr) block(stmts []ast.Stmt, indent string) string {
 		if x.Init != nil {
 			return t.fail(s, "if with init")
 		}
+		// the condition is evaluated before either branch; assignments made inside the (terminating)
+		// then-branch must not be visible to the code after it
+		cond := t.expr(x.Cond)
+		saved := make(map[types.Object]string, len(t.env))
+		for k, v := range t.env {
+			saved[k] = v
+		}
 		thenB := t.block(x.Body.List, indent+"  ")
+		t.env = saved
 		var elseB string
 		if x.Else == nil {
 			// both branches must produce the result: `if c { return a }; rest`
@@ -548,7 +564,7 @@ func (t *tr) block(stmts []ast.Stmt, indent string) string {
 		if !terminates(x.Body.List) {
 			return t.fail(s, "if branch that falls through")
 		}
-		return fmt.Sprintf("%sif %s then\n%s\n%selse\n%s", indent, t.expr(x.Cond), thenB, indent, elseB)
+		return fmt.Sprintf("%sif %s then\n%s\n%selse\n%s", indent, cond, thenB, indent, elseB)
 	}
 	return t.fail(s, "statement %T", s)
 }
@@ -604,18 +620,36 @@ func (t *tr) leanType(ty types.Type) string {
 }
 
 func (t *tr) fn(fd *ast.FuncDecl) string {
-	var params []string
+	// parameters by position (receiver first); unnamed and blank parameters keep their position
+	t.env = map[types.Object]string{}
+	var params, argNames, paramNotes []string
+	addParam := func(f *ast.Field) {
+		ty := t.leanType(t.info.TypeOf(f.Type))
+		names := f.Names
+		if len(names) == 0 {
+			names = []*ast.Ident{nil}
+		}
+		for _, n := range names {
+			cn := fmt.Sprintf("a%d", len(params))
+			params = append(params, fmt.Sprintf("(%s : %s)", cn, ty))
+			argNames = append(argNames, cn)
+			gn := "_"
+			if n != nil {
+				gn = n.Name
+				if obj := t.info.Defs[n]; obj != nil {
+					t.env[obj] = cn
+				}
+			}
+			paramNotes = append(paramNotes, fmt.Sprintf("%s = %s", cn, gn))
+		}
+	}
 	if fd.Recv != nil {
 		for _, f := range fd.Recv.List {
-			for _, n := range f.Names {
-				params = append(params, fmt.Sprintf("(%s : %s)", leanName(n.Name), t.leanType(t.info.TypeOf(f.Type))))
-			}
+			addParam(f)
 		}
 	}
 	for _, f := range fd.Type.Params.List {
-		for _, n := range f.Names {
-			params = append(params, fmt.Sprintf("(%s : %s)", leanName(n.Name), t.leanType(t.info.TypeOf(f.Type))))
-		}
+		addParam(f)
 	}
 	var rts []string
 	if fd.Type.Results != nil {
@@ -631,25 +665,41 @@ func (t *tr) fn(fd *ast.FuncDecl) string {
 	}
 	t.curFn = leanName(fd.Name.Name)
 	t.binders = strings.Join(params, " ")
-	var argNames []string
-	if fd.Recv != nil {
-		for _, f := range fd.Recv.List {
-			for _, n := range f.Names {
-				argNames = append(argNames, leanName(n.Name))
-			}
-		}
-	}
-	for _, f := range fd.Type.Params.List {
-		for _, n := range f.Names {
-			argNames = append(argNames, leanName(n.Name))
-		}
-	}
 	t.args = strings.Join(argNames, " ")
-	t.env = map[string]string{}
-	t.count = map[string]int{}
-	t.aux = nil
+	t.legacyCount = map[string]int{}
+	t.defs = nil
 	body := t.block(fd.Body.List, "  ")
-	return strings.Join(t.aux, "\n") + "\n" + fmt.Sprintf("def %s %s : %s :=\n%s\n", leanName(fd.Name.Name), strings.Join(params, " "), strings.Join(rts, " × "), body)
+	subst := t.canonicalise()
+	order := make([]*ldef, len(t.defs))
+	for _, d := range t.defs {
+		if d.canon >= 1 && d.canon <= len(order) {
+			order[d.canon-1] = d
+		}
+	}
+	var sb strings.Builder
+	// reader's map: canonical name = Go name (file:line)
+	pos := t.fset.Position(fd.Pos())
+	sb.WriteString(fmt.Sprintf("/- %s (%s:%d): %s", t.curFn, filepath.Base(pos.Filename), pos.Line, strings.Join(paramNotes, ", ")))
+	for _, d := range order {
+		if d == nil {
+			continue
+		}
+		gn := d.goName
+		if gn == "" {
+			gn = "(multi-value result)"
+		}
+		sb.WriteString(fmt.Sprintf("\n     v%d = %s (line %d)", d.canon, gn, t.fset.Position(d.pos).Line))
+		t.renames = append(t.renames, fmt.Sprintf("%s.%s %s.v%d", t.curFn, d.legacy, t.curFn, d.canon))
+	}
+	sb.WriteString(" -/\n")
+	for _, d := range order {
+		if d == nil {
+			continue
+		}
+		sb.WriteString(fmt.Sprintf("def %s.v%d %s : %s :=\n  %s\n\n", t.curFn, d.canon, t.binders, d.ty, subst(d.val)))
+	}
+	sb.WriteString(fmt.Sprintf("def %s %s : %s :=\n%s\n", t.curFn, t.binders, strings.Join(rts, " × "), subst(body)))
+	return sb.String()
 }
 
 func main() {
@@ -662,6 +712,7 @@ func main() {
 	structs := flag.String("structs", "", "comma-separated struct types to emit")
 	files := flag.String("files", "", "comma-separated file names to load (default: all non-test files)")
 	recv := flag.String("recv", "", "receiver type whose methods are meant (plain functions are always eligible)")
+	renamesOut := flag.String("renames", "", "also write `former-name canonical-name` lines for every auxiliary definition (proof migration aid)")
 	flag.Parse()
 
 	fset := token.NewFileSet()
@@ -810,6 +861,13 @@ func main() {
 		sb.WriteString("\n")
 	}
 	sb.WriteString("end " + *ns + "\n")
+	// positional parameter names must not capture a structural (global) name
+	globals := append(append(append([]string{}, names...), cs...), strings.Split(*tables, ",")...)
+	for _, g := range globals {
+		if regexp.MustCompile(`^a[0-9]+$`).MatchString(g) {
+			t.errs = append(t.errs, "global name "+g+" clashes with the positional parameter names")
+		}
+	}
 	if len(t.errs) > 0 {
 		for _, e := range t.errs {
 			fmt.Println("TRANSLATOR-ERROR:", e)
@@ -819,6 +877,12 @@ func main() {
 	if err := os.WriteFile(*out, []byte(sb.String()), 0o644); err != nil {
 		fmt.Println("TRANSLATOR-ERROR:", err)
 		os.Exit(2)
+	}
+	if *renamesOut != "" {
+		if err := os.WriteFile(*renamesOut, []byte(strings.Join(t.renames, "\n")+"\n"), 0o644); err != nil {
+			fmt.Println("TRANSLATOR-ERROR:", err)
+			os.Exit(2)
+		}
 	}
 	fmt.Println("translated", len(names), "functions to", *out)
 }
